@@ -343,6 +343,9 @@ fn optimality<T: Sc>(w: &World<T>, params: &[T], coeff: &[T], rnorm: f64) -> Opt
     if smax / smin > kmax {
         return Opt::Gated("ill_conditioned");
     }
+    if smin < refmath::underflow_range::<T>() {
+        return Opt::Gated("underflow_range");
+    }
     let Some(cref) = refmath::lstsq(&a, &y, 1e-12) else {
         return Opt::Gated("rank");
     };
